@@ -259,6 +259,26 @@ def check_ast(ctx, text, case):
     ctx.count('ast', 'mirrors tree')
 
 
+def check_ast_of(ctx, doc, case):
+    """The generic view of a tree that was parsed under another renderer's token set (its extra token classes included)."""
+    try:
+        out = mt.renderer_class('Ast')().render(doc)
+    except Exception as e:  # noqa
+        ctx.violation('ast-raises', '%s on a %s tree' % (mt.exc_site(e), case['token_set']), dict(case, view='ast'), traceback=mt.tb_text(e))
+        return
+    try:
+        data = json.loads(out)
+    except ValueError as e:
+        ctx.violation('ast-invalid-json', str(e)[:60], dict(case, view='ast'), observed=out[:500])
+        return
+    m = ast_mismatch(data, doc)
+    if m:
+        import re
+        ctx.violation('ast-does-not-mirror-tree', '%s tree: %s' % (case['token_set'], re.sub(r"'[^']*'|\d+", '_', m)[:90]), dict(case, view='ast'), mismatch=m)
+        return
+    ctx.count('ast', 'mirrors %s tree' % case['token_set'])
+
+
 def check(ctx, text, source):
     install()
     for ts in TOKEN_SETS:
@@ -291,6 +311,8 @@ def check(ctx, text, source):
             if st['tokens'] > 3:
                 ctx.seen('nontrivial', [text, ts])
         check_traverse(ctx, doc, case)
+        if ts is not None:
+            check_ast_of(ctx, doc, case)
     ctx.ev()
     check_ast(ctx, text, {'text': text, 'token_set': 'Ast', 'source': source})
 
